@@ -117,6 +117,13 @@ def search(run, info):
                  "IF i < 2 THEN i := 1; ELSIF i < 3 THEN ; ELSE ; END_IF;", "IF i < 2 THEN ; ELSIF i < 3 THEN ; ELSIF i < 4 THEN i := 2; END_IF;",
                  "IF i < 2 THEN END_IF;", "WHILE i < 2 DO REPEAT ; UNTIL TRUE END_REPEAT; END_WHILE;", ";", ";;"]:
         texts.append(("empty-bodies", "FUNCTION_BLOCK fe\nVAR i : INT; END_VAR\n%s\nEND_FUNCTION_BLOCK\n" % body, set()))
+    # directly represented variables: every location, with every size prefix and with none, declared at an address and used in
+    # statements
+    for loc in "IQM":
+        for sz in ("", "X", "B", "W", "D", "L"):
+            ty = "BOOL" if sz in ("", "X") else "INT"
+            texts.append(("direct-variables", "PROGRAM pd\nVAR\n  a AT %%%s%s1 : %s;\n  AT %%%s%s0.3 : %s;\nEND_VAR\n%%%s%s2.1 := %%%s%s2.0;\nEND_PROGRAM\n" % (
+                loc, sz, ty, loc, sz, ty, loc, sz, loc, sz), set()))
     import gen_st
     for _ in range(150 if run.tier == "quick" else 3000):
         sx, lx = gen_st.G_(rng, depth=rng.choice([1, 2, 3])).body()
